@@ -84,6 +84,9 @@ void gmres_single(at::Tensor &solution, int &flag, int &nit, AMENsolveMV<T> &Op,
     betaA[0] = r_norm;
 
     int k;
+    // the Krylov space has at most `size` dimensions: further iterations would orthogonalise round-off
+    if(iters > size)
+        iters = size;
     for(k = 0; k<iters; k++){
         
        // std::cout <<"\n";
@@ -104,10 +107,12 @@ void gmres_single(at::Tensor &solution, int &flag, int &nit, AMENsolveMV<T> &Op,
 
      //   ts = std::chrono::high_resolution_clock::now();
         T h = torch::norm(q).item<T>();
+        // invariant Krylov space (h == 0): the least-squares solution over it is exact, nothing to normalise
+        bool breakdown = !(h > 0);
+        if(!breakdown)
+            q /= h;
 
-        q /= h;
-
-        HA[k+1][k] = h;
+        HA[k+1][k] = breakdown ? 0 : h;
         Q.push_back(q.clone().squeeze());
 
         T c,s;
@@ -122,7 +127,7 @@ void gmres_single(at::Tensor &solution, int &flag, int &nit, AMENsolveMV<T> &Op,
         error = std::abs(betaA[k+1])/b_norm;
        // diff_time = std::chrono::high_resolution_clock::now() - ts;
      // std::cout << " REST " << (double)(std::chrono::duration_cast<std::chrono::microseconds>(diff_time)).count()/1000 << std::endl;
-        if(error<=threshold)
+        if(error<=threshold || breakdown)
         {
             flag = 1;
             break;
